@@ -248,6 +248,8 @@ Definition step (st : mstate) (t : token) : option mstate :=
         Some {| s_stack := if kind_registers k then reg_many [cnt] stk else stk;
                 s_inopen := None; s_counter := s_counter st; s_heap := s_heap st |}
       end
+    | TPing _ | TPong _ => if keepalive_tokens_ignored then Some st else None     (* keepalive tokens are dealt with in Banana.handleData (`continue`) before handleOpen sees
+                                          anything: legal between OPEN and its index tokens too *)
     | _ => None
     end
   | None =>
@@ -280,7 +282,7 @@ Definition step (st : mstate) (t : token) : option mstate :=
         else None     (* lost sync *)
       | [] => None
       end
-    | TPing _ | TPong _ => Some st
+    | TPing _ | TPong _ => if keepalive_tokens_ignored then Some st else None
     | TVocab _ | TAbort _ | TError _ => None     (* VOCAB is expanded below this layer; ABORT/ERROR end the clean run *)
     end
   end.
